@@ -55,9 +55,61 @@ pub fn box_pairs(rng: &mut Rng, n: usize) -> Vec<(([u8; 32], [u8; 32]), ([u8; 32
     }).collect()
 }
 
+/// Messages whose Poly1305 accumulator is steered onto the residues 0..4 and p-1.. (so that the
+/// unreduced limbs may hold p+x, the corner of the final conditional subtraction), for a given
+/// secretbox key and nonce: the last ciphertext block is solved modulo 2^130-5.
+pub fn steered_messages(rng: &mut Rng, k: &[u8; 32], n: &[u8; 24], nblocks: usize, target: u32) -> Option<Vec<u8>> {
+    use num_bigint::BigUint;
+    let ks = sodium::stream_xsalsa20(32 + 16 * nblocks, n, k);
+    let p = (BigUint::from(1u8) << 130) - BigUint::from(5u8);
+    let mut rb = ks[..16].to_vec();
+    for (i, m) in [(3usize, 15u8), (7, 15), (11, 15), (15, 15)] { rb[i] &= m; }
+    for i in [4usize, 8, 12] { rb[i] &= 252; }
+    let r = BigUint::from_bytes_le(&rb);
+    if r == BigUint::from(0u8) { return None; }
+    let rinv = r.modpow(&(&p - BigUint::from(2u8)), &p);
+    let two128 = BigUint::from(1u8) << 128;
+    for _ in 0..64 {
+        let mut c: Vec<u8> = rng.bytes(16 * (nblocks - 1));
+        let mut acc = BigUint::from(0u8);
+        for b in c.chunks(16) { acc = ((acc + BigUint::from_bytes_le(b) + &two128) * &r) % &p; }
+        // want ((acc + x + 2^128) * r) mod p = target  =>  x = target * r^-1 - acc - 2^128 (mod p)
+        let t = (BigUint::from(target) * &rinv) % &p;
+        let x: BigUint = (t + &p + &p - acc - &two128) % &p;
+        if x < two128 {
+            let mut xb = x.to_bytes_le(); xb.resize(16, 0);
+            c.extend_from_slice(&xb);
+            let m: Vec<u8> = c.iter().zip(ks[32..].iter()).map(|(a, b)| a ^ b).collect();
+            return Some(m);
+        }
+    }
+    None
+}
+
 pub fn run_c01(out: &mut Out, tier: &str, seed: u64) {
     let mut rng = Rng::new(seed, "c01");
     let thorough = tier == "thorough";
+    // Poly1305 final-reduction corners reached through the box: accumulator residues 0..=4 (limbs may
+    // hold p+x) for several keys and block counts
+    for round in 0..(if thorough { 40 } else { 10 }) {
+        let (k, n): ([u8; 32], [u8; 24]) = (rng.arr(), rng.arr());
+        for target in 0..=5u32 {
+            for nblocks in [1usize, 2, 5] {
+                if let Some(m) = steered_messages(&mut rng, &k, &n, nblocks, target) {
+                    out.search_evaluations += 2;
+                    let s = sodium::secretbox_easy(&m, &n, &k);
+                    let e = sb_easy(m.len() + 16, &m, &n, &k);
+                    if e.clone().ok().as_ref() != Some(&s) {
+                        out.hit("secretbox.easy.differs-from-libsodium.steered-accumulator", format!("accumulator residue {} ({} blocks)", target, nblocks),
+                            json!({"op":"secretbox.easy","key":hx(&k),"nonce":hx(&n),"msg":hx(&m),"libsodium":hx(&s),"dryoc":format!("{:?}", e.clone().map(|v| hx(&v)))}));
+                    }
+                    let r = sb_open_easy(&vec![SENT; m.len()], &s, &n, &k);
+                    if !(r.0.is_ok() && r.1 == m) { out.hit("secretbox.open_easy.rejects-libsodium-box.steered-accumulator", format!("accumulator residue {}", target), json!({"op":"secretbox.open_easy","key":hx(&k),"nonce":hx(&n),"box":hx(&s)})); }
+                    if round < 3 { out.case("secretbox.easy", &[b(&vec![SENT; m.len() + 16]), b(&m), b(&n), b(&k)], &e.map(|v| vec![Tok::B(v)]), true); }
+                }
+            }
+        }
+    }
     let maxlen = 320usize;
     let mut lens: Vec<usize> = (0..=maxlen).collect();
     lens.extend_from_slice(&[1024, 4096]);
